@@ -175,6 +175,8 @@ var NameShapes = [][]string{
 	{"T", "|", "join", "(", "?", "|", "as", "?", ")", "on", "a", "|", "where", "a"},
 	{"T", "|", "as", "?", "|", "join", "(", "U", "|", "where", "a", ")", "on", "a"},
 	{"T", "|", "project", "?", "|", "as", "?", "|", "take", "1", "|", "take", "1"},
+	{"T", "|", "as", "?", "|", "as", "?", "|", "count"},
+	{"T", "|", "where", "a", "|", "join", "(", "U", "|", "as", "?", "|", "as", "?", ")", "on", "a"},
 }
 
 // H_C05names checks the name-collision shapes.
